@@ -44,6 +44,26 @@ func (l *k5log) Error(f string, a ...any) {
 }
 func (l *k5log) Panic(f string, a ...any) { l.Error("PANIC "+f, a...) }
 
+// k5notify is pinged whenever a link receives bytes, B consumes bytes or a core records a message
+var k5notify = make(chan struct{}, 1)
+
+func k5ping() {
+	select {
+	case k5notify <- struct{}{}:
+	default:
+	}
+}
+
+// k5wait blocks until the next ping (at most d)
+func k5wait(d time.Duration) {
+	t := time.NewTimer(d)
+	select {
+	case <-k5notify:
+	case <-t.C:
+	}
+	t.Stop()
+}
+
 // ---- mock core ----------------------------------------------------------------------------
 
 type k5routed struct {
@@ -94,6 +114,7 @@ func (c *k5core) record(from, to uint64, kind byte, m any) error {
 	c.got = append(c.got, k5routed{from, to, kind, seq})
 	c.cond.Broadcast()
 	c.mu.Unlock()
+	k5ping()
 	return nil
 }
 func (c *k5core) RouteSendPID(from gen.PID, to gen.PID, o gen.MessageOptions, m any) error {
@@ -127,7 +148,7 @@ func (c *k5core) waitCount(n int, d time.Duration) bool {
 			return false
 		}
 		c.mu.Unlock()
-		time.Sleep(200 * time.Microsecond)
+		k5wait(2 * time.Millisecond)
 		c.mu.Lock()
 	}
 	return true
@@ -192,6 +213,7 @@ func (e *k5end) Write(p []byte) (int, error) {
 	}
 	l.buf = append(l.buf, p...)
 	l.cond.Broadcast()
+	k5ping()
 	return len(p), nil
 }
 
@@ -210,6 +232,7 @@ func (e *k5end) Read(p []byte) (int, error) {
 			n := copy(p, l.buf[l.read:l.avail])
 			l.read += n
 			l.cond.Broadcast()
+			k5ping()
 			return n, nil
 		}
 		if l.eofB {
@@ -361,7 +384,7 @@ func (p *k5pair) waitFrames(n int, d time.Duration) bool {
 		if time.Now().After(deadline) {
 			return false
 		}
-		time.Sleep(100 * time.Microsecond)
+		k5wait(2 * time.Millisecond)
 	}
 	return true
 }
